@@ -1,6 +1,6 @@
 (** Extraction of the executable model for the correspondence driver.
     ExtrOcamlBasic only; N and Z stay the extracted inductives. *)
-Require Import Base Kinds GenUnionTable Schema Varint Utf8 Sval Ser Rabin CrcSpec Text CanonicalForm Target Reader De VectoredWrite AvroValue Encoding Denote Container FileSpec Json Parse SchemaJson PcfSpec SerHistory SingleObject Freeze Ownership.
+Require Import Base Kinds GenUnionTable Schema Varint Utf8 Sval Ser Rabin CrcSpec Text CanonicalForm Target Reader De VectoredWrite AvroValue Encoding Denote Container FileSpec Json Parse SchemaJson PcfSpec SerHistory SingleObject Freeze Ownership Wf Derive.
 Require Extraction.
 Require Import ExtrOcamlBasic.
 Extraction Language OCaml.
@@ -19,4 +19,5 @@ Separate Extraction
   Container.wbuild Container.wrun Container.cr_open Container.cr_run Container.mkCR Container.header_meta
   SingleObject.so_encode SingleObject.so_decode SerHistory.hist_run FileSpec.ref_parse Parse.parse_schema Parse.check_for_cycles SchemaJson.schema_json Freeze.freeze_built PcfSpec.pcf Json.json_text
   Ownership.shape Ownership.freeze_run Ownership.exec_trace Ownership.fm0 Ownership.step Ownership.live_okb Ownership.st0
-  Denote.dval_any Denote.present Denote.erase_borrow Denote.typed_target Denote.dval_typed.
+  Derive.derive_schema Derive.derive_schema_unregistered Derive.fullnames Derive.no_dup_bytes
+  Wf.depth_cost Denote.dval_any Denote.present Denote.erase_borrow Denote.typed_target Denote.dval_typed.
